@@ -22,7 +22,7 @@ ASSUMPTIONS = [
 ]
 
 
-from util import J, boxed, chk_tt
+from util import J, boxed, chk_tt, sdiv_inexact_cases
 
 
 def tdt_of(dtype):
@@ -102,6 +102,7 @@ def run(res, rng, tier, known):
                         cases.append(Case(J("sdiv", tt_tokens(x), num_str(qe)), impl,
                                           chk_tt(box, lambda dx=dx, qe=qe: dx / qe, dt, Rx, N),
                                           "sdiv/%s/%s" % (kname, tag), True))
+            cases += sdiv_inexact_cases(rng, x, dt, tag, 2 if tier == "quick" else 6)
             # numpy integer / float32 scalars in `*` (accepted by `+`)
             if si % 4 == 0:
                 for kname, sval in (("npint64", np.int64(3)), ("npfloat32", np.float32(2.0))):
